@@ -137,7 +137,7 @@ class ListHandler(logging.Handler):
 
 
 def run(files, body, legacy=False, extra_cfg=None, pre=None, base=None, realfs=False, apps_cfg=None,
-        capture_logs=False, allow_all_imports=True, mtimes=None, tz=None, start_event=True):
+        capture_logs=False, allow_all_imports=True, mtimes=None, tz=None, start_event=True, extra_patches=None):
     """Run one scenario.  files: {relative path under pyscript/: source}.  body(w) is awaited after
     set-up and EVENT_HOMEASSISTANT_STARTED.  Returns whatever body returns."""
     loop = VirtualLoop()
@@ -226,6 +226,7 @@ def run(files, body, legacy=False, extra_cfg=None, pre=None, base=None, realfs=F
                     patch("custom_components.pyscript.global_ctx.os.path.getmtime", return_value=1000),
                     patch("custom_components.pyscript.os.path.isfile", side_effect=lambda p: p in fc),
                 ]
+            patches += list(extra_patches or [])
             handler = None
             if capture_logs:
                 handler = ListHandler(w.logs)
